@@ -1,6 +1,8 @@
 package main
 
 import (
+	"fmt"
+	"os"
 	"runtime"
 
 	"golang.org/x/sys/unix"
@@ -8,3 +10,20 @@ import (
 
 func runtimeStack(b []byte) int { return runtime.Stack(b, false) }
 func closeFd(fd int) error      { return unix.Close(fd) }
+
+// sockRole describes a leaked socket: listening / connected (accepted or dialled) and its family
+func sockRole(fd int) string {
+	role := ""
+	if v, err := unix.GetsockoptInt(fd, unix.SOL_SOCKET, unix.SO_ACCEPTCONN); err == nil && v == 1 {
+		role = "(listening)"
+	} else if pn, err := unix.Getpeername(fd); err == nil {
+		role = "(connected)"
+		if os.Getenv("VERIF_FD_DEBUG") == "1" {
+			ln, _ := unix.Getsockname(fd)
+			role = fmt.Sprintf("(connected local=%+v peer=%+v)", ln, pn)
+		}
+	} else {
+		role = "(unconnected)"
+	}
+	return role
+}
